@@ -70,6 +70,26 @@ CHECKS = {
     note="Vendor OpType*/constant opcodes and OpModuleProcessed (for the non-location debug predicate) are don't-care.",
     technique="TLC trace validation (PredTrace.tla, exhaustive over 787 x 12) + BuilderTrace.tla over every generated block/terminator method",
     design="5 C16"),
+ "C08": dict(
+    text="Thorough tier: ALL 2^32 numbers go through every from_u32 (45 enumerations) and from_bits (15 masks) on 16 threads; the accepted set is recorded as maximal intervals (masks: OR of accepted values and counter-examples) and TablesTrace checks it equal to the declared discriminants three ways: pinned snapshot, the enum declarations in the current source text, and `as u32` of every accepted value; every declared value's Debug name parses back, every alias parses to its target, near-miss names are rejected; mask constants agree with the declarations. Quick tier: boundary probes (0..2^20, every declared value and range bound +-1, powers of two, 10^6 random).",
+    note="Khronos agreement: relative to the pinned snapshot + source declarations + ~250 hand-transcribed enumerant anchors (the Khronos JSON is not in the sealed sandbox).",
+    technique="TLC trace validation (TablesTrace.tla) of an exhaustive 2^32 sweep of every from_u32/from_bits + names/aliases, against GrammarData.json, the textual declarations and SpecFacts anchors",
+    design="5 C08"),
+ "C09": dict(
+    text="lookup_opcode for all 65536 numbers, get(op) for every declared opcode, iter() of the three tables, lookups of the extended tables on 0..4095 and far numbers; every entry is compared field by field (name, opcode, capabilities, extensions, operand kinds and quantifiers) with the pinned snapshot, with the well-formedness predicate of the property and, for ~110 core instructions, with operand layouts transcribed by hand from the SPIR-V specification (SpecFacts!InstAnchors).",
+    note="Khronos agreement as for C08: snapshot + anchors.",
+    technique="TLC trace validation (TablesTrace.tla) over the complete opcode space and every table entry",
+    design="5 C09"),
+ "C17": dict(
+    text="For every enumerant of every operand kind and for every single bit, every pair of bits, all bits and random combinations of every mask, additional_operands / required_capabilities / required_extensions are compared with the snapshot (sequence for enumerants, multiset for masks); the parser side is observed by parsing conforming instructions that carry every enumerant and bit with the snapshot's parameters (C02 suite); every Operand variant is checked for id_ref_any, the one-word effect of id_ref_any_mut on assemble(), and From/unwrap round trips.",
+    note="Khronos agreement as for C08.",
+    technique="TLC trace validation (TablesTrace.tla ReflectOK/OperandOK + ParserTrace.tla) over all enumerants, bits, bit pairs and operand variants",
+    design="5 C17"),
+ "C19": dict(
+    text="Storage.tla (append / fetch_or_append with a possibly non-reflexive equality); MC_Storage checks the C19 sentences on every operation sequence up to 5 (7) over {a, b, nan}; every sequence is replayed on Storage<f64> and on a String-like element type whose 'nan' is unequal to itself, with lookups through ALL tokens handed out so far after every step; random sequences up to 150 operations are added; StorageTrace validates tokens and lookups.",
+    note="Values are compared by label.",
+    technique="TLC model checking (MC_Storage) + replay of all model sequences on the real Storage + TLC trace validation (StorageTrace.tla)",
+    design="5 C19"),
 }
 
 def main():
